@@ -10,6 +10,7 @@
      table  = [ [name req [version ...]] ... ]    resolve.MatchRequirement tabulated by the Go side
      op     = [0 name version] Version | [1 name] Versions | [2 name version] Requirements | [3 name req] MatchingVersions
    api_tracewf : [ops] -> 1 when the call sequence obeys the trace discipline.
+   api_wf : U -> per version, the hypotheses wf_reqs / plain / no > in the version, evaluated by the model.
    (square brackets stand for sx lists) *)
 From DepsDev Require Import Lib.Base Lib.Sx Gen.AttrTables Gen.ApiClientTables Resolve.ApiClient.
 
@@ -70,8 +71,24 @@ Definition dec_pkg (a : sx) : option upkg :=
   | _ => None
   end.
 
+(* the optional second element (how the service spells keys in its answers) does not concern the
+   model: the service record carries no keys, the client uses the key it was asked with *)
 Definition dec_universe (a : sx) : option (list upkg) :=
-  match a with SL [SL ps] => opt_map dec_pkg ps | _ => None end.
+  match a with
+  | SL [SL ps] => opt_map dec_pkg ps
+  | SL [SL ps; SI _] => opt_map dec_pkg ps
+  | _ => None
+  end.
+
+(* the hypotheses of the theorems, evaluated on a universe: per version
+   [name version wf_reqs plain(name) no->-in-version] *)
+Definition wf_report (u : list upkg) : sx :=
+  SL (flat_map (fun p =>
+        map (fun x => SL [SB (up_name p); SB (uv_version x);
+                          sx_bool (wf_reqs (up_name p) (uv_version x) (uv_reqs x));
+                          sx_bool (negb (is_npm_bundle (up_name p)));
+                          sx_bool (negb (contains_byte c_gt (uv_version x)))])
+            (up_vers p)) u).
 
 (* ------------------------------------------------------------------ the fake service as data *)
 
@@ -213,6 +230,8 @@ Definition run_Api (kind : bytes) (a : sx) : option sx :=
               end
           | _ => badcase
           end)
+  else if bytes_eqb kind [97;112;105;95;119;102] (* api_wf *) then
+    Some (match dec_universe a with Some pkgs => wf_report pkgs | None => badcase end)
   else if bytes_eqb kind [97;112;105;95;116;114;97;99;101;119;102] (* api_tracewf *) then
     Some (match a with
           | SL ops => match opt_map dec_op ops with
